@@ -60,8 +60,9 @@ def handle (st : Option St) (args : List String) : Option (Option St × String) 
     let buckets ← optTok (fun s => (s.splitOn "+").mapM intTok?) buckets
     let overrides ← listTok matcherTok overrides
     let quantiles ← listTok unhexChars quantiles
-    let cfg : Cfg := { unitSuffix := us == "1", globals, buckets,
-                       overrides := sortMatchers (overrides.map (fun mb => (mb.1.sanitized, mb.2))), quantiles }
+    -- `globals` / `overrides` are the builder calls as made (repeats included), folded as the builder does
+    let cfg : Cfg := { unitSuffix := us == "1", globals := buildGlobals globals, buckets,
+                       overrides := buildOverrides overrides, quantiles }
     pure (some { cfg }, "ok")
   | op :: rest => do
     let s ← st
@@ -74,6 +75,7 @@ def handle (st : Option St) (args : List String) : Option (Option St × String) 
     | "gset", [n, l, v] => do pure (some (step s (.gset (← keyToks n l) (← valTok v))), "ok")
     | "gadd", [n, l, v] => do pure (some (step s (.gadd (← keyToks n l) (← intTok? v))), "ok")
     | "hrec", [n, l, v] => do pure (some (step s (.hrec (← keyToks n l) (← intTok? v))), "ok")
+    | "hrecmany", [n, l, v, c] => do pure (some (step s (.hrecMany (← keyToks n l) (← intTok? v) (← c.toNat?))), "ok")
     | "upkeep", [] => pure (some (step s .upkeep), "ok")
     | "render", [] =>
       let (s', fams) := renderLines s
